@@ -28,3 +28,39 @@ CLAIMED['C04'] = dict(
          'and rule order<=>index order for all pairs of rank multisets of the type (complete for the class space, e.g. all 7462 standard classes); '
          'the real Hand.__lt__/__eq__/__hash__ are explored on symbolic indices and the key functions on all 1-2 card sets incl. unknown cards.',
     note='rule oracle per type is mine (transcribed from the rules); card sets only (no duplicate cards); class->cards step beyond 2 cards relies on uniformity of prod()/set() in the number of cards; z3 trusted')
+CLAIMED['C03'] = dict(
+    technique=SYMEX + '; history-based betting-rule model as oracle, symbolic amount probe',
+    text='At every betting decision of every explored history (symbolic stacks and raise sizes) the real queries are compared with a rule model derived '
+         'from the action history, and for a symbolic amount x can_complete_bet_or_raise_to(x) <=> x in the model range (all x at once).',
+    note='opener of each round and chips at round start read from the engine (C13/C01); depth <= 3 (n=2), <= 2 (n=3) quick; blinds concrete 1/2; int chips')
+CLAIMED['C05'] = dict(
+    technique=SYMEX + '; parametric lookup (validity bit and strength index per card subset are solver variables)',
+    text='The real from_game composition code runs over placeholder cards with a lookup whose has_entry/get_entry answers are z3 variables; an oracle enumerating the '
+         'legal combinations from the documented rule asserts legality, maximality (respecting low) and None/ValueError exactly when no legal combination is valid.',
+    note='small card counts stand for full-size games (loops are size-generic itertools.combinations); full-size Omaha (60 combinations) outside the claim')
+CLAIMED['C07'] = dict(
+    technique=SYMEX + '; automation membership decided by the solver (11 boolean variables), real code run natively between decisions',
+    text='All 2^11 automation subsets per scripted hand: exactly one phase family enabled while live, none after; documented phase order; progress and bounded length; '
+         'no exception from constructor or legal operations. Plus a traced family with a symbolic stack.',
+    note='scripted player decisions; concrete chips in the 2^11 family; mechanical steps in documented order with default arguments')
+CLAIMED['C08'] = dict(
+    technique=SYMEX + '; symbolic operation arguments at every point of scripted un-automated hands',
+    text='At every point of scripted hands one of the 17 operations is called with symbolic arguments; can_X never raises, verify_X and X agree with it, refusals are '
+         'ValueError/UserWarning, and the whole dataclass state is unchanged after queries, verifiers and refused operations; explicit index == index operated on.',
+    note='probe sites = points of concrete scripted hands; card arguments from a symbolic selector over 8 kinds; known finding F12 carved out')
+CLAIMED['C09'] = dict(
+    technique=SYMEX + '; symbolic automation subset vs un-automated twin, log and state equality',
+    text='For every automation subset (11 solver booleans) the automated run and its un-automated twin (user performs automated steps with default arguments as soon as '
+         'available) produce identical operation logs and final states, on the same deck order and scripted decisions.',
+    note='scripted decisions; concrete chips in the 2^11 family + one traced symbolic-stack family')
+CLAIMED['C15'] = dict(
+    technique=SYMEX + '; log replay on a fresh un-automated state, symbolic copy position, container-identity check',
+    text='For every automation subset / showdown choice the logged operations replay to the same log and state; a deepcopy at every position shares no mutable container, '
+         'is independent of the original and behaves identically.',
+    note='scripted betting decisions; concrete chips except one traced family')
+CLAIMED['C19'] = dict(
+    engine='symex+smt',
+    technique=SYMEX + '; AST->z3 translation of utilities.rake (QF_FP lemma + LIA obligations)',
+    text='clean_values forms vs the explicit list (symbolic amounts/keys), constructors from equivalent representations, Card.parse/clean over pinned ranks/suits and all raw '
+         'text of <= 2 characters, constructor rejection <=> documented conditions, divmod/rake parts add up.',
+    note='rake lemma A discharged at binary16 only (binary64 assumed: monotone IEEE rounding); text longer than 2 raw characters / 2 cards outside')
